@@ -209,6 +209,59 @@ func runC12(w *vio.Writer, rep *vio.Report, seed int64, nh, steps, nq int, only 
 				}
 			}
 		}
+		// one statement per history that compares a binary-collation string column with a fixed literal and
+		// an integer column with a parameter
+		for _, t := range tabs {
+			sc, ic := -1, -1
+			for i, c := range t.Cols {
+				if c.Ty == "s" && c.Coll == "bin" && sc < 0 {
+					sc = i
+				}
+				if c.Ty == "i" && ic < 0 {
+					ic = i
+				}
+			}
+			if sc >= 0 && ic >= 0 {
+				lit := Lit(g.StrVal(0))
+				par := Lit(Int(g.R.Intn(3) - 2))
+				par.P = true
+				var proj []*Expr
+				for i, c := range t.Cols {
+					proj = append(proj, Col(0, i+1, c.Coll))
+				}
+				qs = append(qs, Select(Table(t.Name, len(t.Cols)), Op("and", Op("eq", Col(0, sc+1, "bin"), lit), Op("gt", Col(0, ic+1, "none"), par)), proj...))
+				break
+			}
+		}
+		// sibling statements: the same statement with the letter case of its non-parameter string literals
+		// swapped. Under a binary collation it means something else, and a prepared-statement cache that
+		// confuses the two texts returns the sibling's rows.
+		for _, q := range append([]*Query{}, qs...) {
+			v := CloneQuery(q)
+			changed := false
+			WalkExprs(v, func(e *Expr) {
+				if e.K == "lit" && !e.P && e.V.T == "s" {
+					t := e.V.Text()
+					sw := strings.Map(func(r rune) rune {
+						switch {
+						case r >= 'a' && r <= 'z':
+							return r - 32
+						case r >= 'A' && r <= 'Z':
+							return r + 32
+						}
+						return r
+					}, t)
+					if sw != t {
+						nv := Str(sw)
+						e.V = &nv
+						changed = true
+					}
+				}
+			})
+			if changed {
+				qs = append(qs, v)
+			}
+		}
 		var dml []string
 		idxN := 0
 		for i := 0; i < steps; i++ {
@@ -254,6 +307,7 @@ func runC12(w *vio.Writer, rep *vio.Report, seed int64, nh, steps, nq int, only 
 			continue
 		}
 		db, s := setup(tabs)
+		apiPrepared = map[string]bool{}
 		prepared := map[string]bool{}
 		for round := 0; round <= steps; round++ {
 			after := "initial"
